@@ -139,7 +139,7 @@ def gen_cases(ctx):
     rng = ctx.rng
     cases = []
     # (a) exhaustive scripts over ALPHABET for a few structured programs that run a while; breakpoints on visited ops
-    n_ex, ex_len = ctx.n(2, 3), ctx.n(3, 4)
+    n_ex, ex_len = ctx.n(2, 2), ctx.n(3, 4)
     cands = []
     for _ in range(40):
         p = gen_program(rng, True)
@@ -157,7 +157,7 @@ def gen_cases(ctx):
                 c.update(bps=bps, labels={}, script=list(sc), kind='exhaustive')
                 cases.append(c)
     # (b) random longer scripts over the large pool for many programs
-    for _ in range(ctx.n(2500, 60000)):
+    for _ in range(ctx.n(2500, 40000)):
         p = gen_program(rng, rng.random() < 0.3)
         labels = gen_labels(rng, p)
         bps = gen_bps(rng, p)
@@ -165,8 +165,12 @@ def gen_cases(ctx):
         c = dict(p)
         c.update(bps=bps, labels=labels, bp_labels=bp_labels,
                  script=rand_script(rng, p, labels, rng.choice([0, 1, 2, 3, 4, 5, 6, 8, 12, 20])), kind='random')
+        if rng.random() < 0.12:
+            # through the public entry point flipjump.debug(...) with a saved debugging file and all three kinds of breakpoints
+            c.update(via='quickstart', kind='quickstart',
+                     bp_contains=[rng.choice(['o', 'a', '---', 'l', 'zz', 'X'])] if labels and rng.random() < 0.6 else [])
         cases.append(c)
-    # (c) the F11 witness shape: breakpoint on an op whose jump word lies outside every segment
+    # (c) the former F11 witness shape: breakpoint on an op whose jump word lies outside every segment
     for w in (8, 16, 32, 64):
         cases.append(f11_case(w))
     return cases
@@ -188,7 +192,9 @@ def zlit(x):
     return f'({int(x)})' if x < 0 else str(int(x))
 
 
-def all_bps(case):
+def all_bps(case, res=None):
+    if case.get('via') == 'quickstart' and res is not None:
+        return sorted(res['dbg'].get('resolved_bps', []))
     bps = set(case['bps'])
     for n in case.get('bp_labels', []):
         bps.add(case['labels'][n])
@@ -206,23 +212,26 @@ def coq_case(case, res):
     outn, outb, outv = d['out']
     last = d.get('last_ops') or []
     events = '[' + ';'.join('[' + ';'.join(zlit(x) for x in e) + ']%Z' for e in d['events']) + ']'
-    return (f'mkdcase {ww} {fw.npairs(segs)} {fw.npairs(words)} {fw.nlist(inp)} {d["ops"] + 2} {fw.nlist(all_bps(case))} '
+    return (f'mkdcase {ww} {fw.npairs(segs)} {fw.npairs(words)} {fw.nlist(inp)} {d["ops"] + 2} {fw.nlist(all_bps(case, res))} '
             f'{tbl} {script} {d["cause"]} {d["ops"]} {d.get("fault") or 0} {outn} {fw.nlist(outb)} {outv} '
             f'{case["last_ops"]} {fw.nlist(last)} {fw.npairs(d.get("mem", []))} {events} {d["consumed"]}')
 
 
 # ---- the campaign ----------------------------------------------------------------------------------
 def strip_case(c):
-    return {k: c[k] for k in ('w', 'segs', 'input', 'version', 'bps', 'labels', 'script', 'last_ops') if k in c} | \
-        {'bp_labels': c.get('bp_labels', [])}
+    return {k: c[k] for k in ('w', 'segs', 'input', 'version', 'bps', 'labels', 'script', 'last_ops', 'via', 'bp_contains')
+            if k in c} | {'bp_labels': c.get('bp_labels', [])}
 
 
 def spec_transparent(d, p):
     """the property evaluated directly on the implementation: debugged vs undebugged run (same featured engine)"""
     if d.get('cause') == KBD:
         return True, ''
-    keys = ('cause', 'ops', 'fault', 'out', 'mem')
+    keys = ('cause', 'ops', 'fault', 'out')
     diff = [k for k in keys if d.get(k) != p.get(k)]
+    # final memory: part of "never alter program state"
+    if not diff and d.get('mem') != p.get('mem'):
+        diff = ['mem']
     return not diff, ','.join(diff)
 
 
@@ -286,7 +295,13 @@ def evaluate(ctx, cases, results, name='c15'):
             continue
         p = r['plain']
         ok, diff = spec_transparent(d, p)
-        faulted = bool(d['events']) and d['events'][-1] == [1]
+        faulted = [1] in d['events']
+        if faulted and ok:
+            # the pause banner raised (finding F11, fixed): reported even when the observables happen to coincide
+            ctx.violation({'kind': 'pause-banner-fault'},
+                          'a pause banner raised and ended the debugged run (the banner must never stop the program)',
+                          {'case': strip_case(c), 'observed_debugged': d, 'observed_undebugged': p,
+                           'required': 'the banner is printed and the prompt runs; the op then executes as undebugged', 'how': how(c)})
         if not ok:
             sig = {'kind': 'pause-banner-fault'} if faulted else {'kind': 'debug-changes-run', 'differs': diff}
             ctx.violation(sig, f'debugged run differs from the undebugged run in {diff}: debugged cause={d["cause"]} '
@@ -318,6 +333,8 @@ def evaluate(ctx, cases, results, name='c15'):
     for k, a, s_ in failing:
         c, r = cases[k], results[k]
         d = r['dbg']
+        if [1] in d['events']:
+            continue        # a raising banner: already reported with the signature pause-banner-fault
         if s_ is False and budget['spec'] > 0:
             budget['spec'] -= 1
             rc, exp = fw.coq_eval_term(ctx, f'{name}_sp{k}', HEADER, f'let c := {coq_case(c, r)} in expected_pauses c.(k_bps) '
@@ -325,7 +342,7 @@ def evaluate(ctx, cases, results, name='c15'):
                                        f'(bytes_bits c.(k_input)))) None (actions_of c.(k_script))')
             obs = [(e[2], e[3]) for e in d['events'] if e[0] == 0]
             ctx.violation({'kind': 'pause-position'},
-                          f'the debugger paused at (address, ops executed) {obs}; breakpoints {all_bps(c)} and the script '
+                          f'the debugger paused at (address, ops executed) {obs}' + (' and once more with a banner that raised' if [1] in d['events'] else '') + f'; breakpoints {all_bps(c, r)} and the script '
                           f'{c["script"]} require {exp[-400:]}',
                           {'case': strip_case(c), 'observed': d, 'required_pauses': exp, 'how': how(c)})
         if a is False and budget['model'] > 0:
@@ -351,16 +368,23 @@ def run(ctx):
     fw.static_proofs(ctx, ['Properties/C15.v'])
     cases = gen_cases(ctx)
     results = run_workers(ctx, cases)
-    for c, r in list(zip(cases, results))[-3:]:
-        ctx.sample({'case': strip_case(c), 'observed_debugged': {k: v for k, v in r['dbg'].items() if k != 'mem'}})
+    picked = set()
+    for want in ('exhaustive', 'random', 'quickstart', 'directed'):
+        for c, r in zip(cases, results):
+            d = r.get('dbg') or {}
+            if c.get('kind') == want and want not in picked and sum(1 for e in d.get('events', []) if e[0] == 0) >= 2:
+                picked.add(want)
+                ctx.sample({'case': strip_case(c), 'observed_debugged': {k: v for k, v in d.items() if k != 'mem'}})
+    ctx.sample({'case': strip_case(cases[-1]), 'observed_debugged': {k: v for k, v in results[-1]['dbg'].items() if k != 'mem'},
+                'observed_undebugged': {k: v for k, v in results[-1]['plain'].items() if k != 'mem'}})
     evaluate(ctx, cases, results)
     ctx.coverage['rule'] = (
         'sessions of the REAL debugger (fjm_run.run + BreakpointHandler, input() scripted, stdout parsed): '
-        f'(a) ALL scripts up to length {ctx.n(3, 4)} over the {len(ALPHABET)}-command alphabet {ALPHABET} for {ctx.n(2, 3)} structured '
+        f'(a) ALL scripts up to length {ctx.n(3, 4)} over the {len(ALPHABET)}-command alphabet {ALPHABET} for 2 structured '
         'programs x one breakpoint set; (b) random scripts (length 0..20) over a pool of ~100 command spellings incl. reads by '
         'address/label/typed vector and malformed numbers, for generated images (imagegen: unaligned, self-modifying, IO, '
         'segment-edge ops; chains) x random breakpoint sets (jump targets, op starts, unaligned, label breakpoints); '
-        '(c) the F11 witness per width. Each session: transcript+statistics+output+last-ops+memory vs Model/Debug.v in Coq, '
+        '(c) the former F11 witness (breakpoint on an op whose jump word is outside every segment) per width. Each session: transcript+statistics+output+last-ops+memory vs Model/Debug.v in Coq, '
         'debugged vs undebugged real run, printed pauses vs DebugSpec.expected_pauses. distinct = distinct '
         '(image,input,breakpoints,labels,script); non-trivial = at least one pause happened')
     ctx.assumptions += [
